@@ -540,6 +540,9 @@ def _worker(args):
             elif seed % 4 == 3 and admin_jobs:
                 h, _log = histories.branch_jobs_and_run(seed, on_job=on_job, mode=mode, cfg_override=cfg_override,
                                                         fault_for=ff)
+            elif seed % 8 == 4:
+                h, _log = histories.backport_and_run(seed, on_job=on_job, mode=mode, cfg_override=cfg_override,
+                                                     fault_for=ff)
             elif seed % 8 == 6:
                 h, _log = histories.manual_w_and_run(seed, on_job=on_job, mode=mode, cfg_override=cfg_override,
                                                      fault_for=ff)
